@@ -26,9 +26,9 @@ func (r Route) Closed() bool  { return r.Start() == r.End() }
 func (r Route) String() string {
 	s := make([]string, len(r))
 	for i, h := range r {
-		s[i] = fmt.Sprintf("%d:%s", h.Pool, h.Out)
+		s[i] = fmt.Sprintf("%d:%s", h.Pool, alias(h.Out))
 	}
-	return r.Start() + "/" + strings.Join(s, ",")
+	return alias(r.Start()) + "/" + strings.Join(s, ",")
 }
 
 func (r Route) InRoutes() []pmtypes.SwapAmountInRoute {
@@ -65,9 +65,9 @@ func (r Route) disjoint(o Route) bool {
 	return true
 }
 
-// allRoutes enumerates every trail of 1..maxHops hops (each pool at most once, both directions),
-// ordered by (length, string) so that the order is the same everywhere.
-func allRoutes(pools []PoolInfo, maxHops int) []Route {
+// allRoutes enumerates every trail of 1..maxHops hops (each pool at most once, every ordered pair of a
+// pool's denoms is an edge), ordered by (length, string) so that the order is the same everywhere.
+func allRoutes(pools []PoolInfo, denoms []string, maxHops int) []Route {
 	var out []Route
 	var rec func(cur Route, at string, used map[uint64]bool)
 	rec = func(cur Route, at string, used map[uint64]bool) {
@@ -81,18 +81,17 @@ func allRoutes(pools []PoolInfo, maxHops int) []Route {
 			if used[p.ID] {
 				continue
 			}
-			var next string
-			switch at {
-			case p.X:
-				next = p.Y
-			case p.Y:
-				next = p.X
-			default:
+			if !p.has(at) {
 				continue
 			}
-			used[p.ID] = true
-			rec(append(cur, Hop{p.ID, at, next}), next, used)
-			used[p.ID] = false
+			for _, next := range p.Denoms {
+				if next == at {
+					continue
+				}
+				used[p.ID] = true
+				rec(append(cur, Hop{p.ID, at, next}), next, used)
+				used[p.ID] = false
+			}
 		}
 	}
 	for _, d := range denoms {
